@@ -21,6 +21,7 @@ def run(cmd, cwd, env=None, timeout=1800):
 def main():
     sid, d = sys.argv[1], sys.argv[2]
     miri = "--miri" in sys.argv
+    nodef = ["--no-default-features"] if "--nodef" in sys.argv else []
     wt = f"/tmp/vs/{sid}"
     os.makedirs("/tmp/vs", exist_ok=True)
     subprocess.run(["git", "-C", "/repo", "worktree", "remove", "--force", wt], stdout=subprocess.DEVNULL, stderr=subprocess.DEVNULL)
@@ -33,9 +34,9 @@ def main():
         menv = dict(tenv)
         menv["MIRIFLAGS"] = "-Zmiri-disable-stacked-borrows"
         shutil.copy(os.path.join(d, "demo.rs"), demo)
-        res["demo_unchanged_native"] = run(["cargo", "test", "--offline", "--test", "seeded_demo"], wt, tenv)
+        res["demo_unchanged_native"] = run(["cargo", "test", "--offline", "--test", "seeded_demo"] + nodef, wt, tenv)
         if miri:
-            res["demo_unchanged_miri"] = run(["cargo", "+nightly", "miri", "test", "--offline", "--test", "seeded_demo"], wt, menv)
+            res["demo_unchanged_miri"] = run(["cargo", "+nightly", "miri", "test", "--offline", "--test", "seeded_demo"] + nodef, wt, menv)
         os.remove(demo)
         a = subprocess.run(["git", "apply", os.path.join(os.path.abspath(d), "patch.diff")], cwd=wt, stdout=subprocess.PIPE, stderr=subprocess.STDOUT, text=True)
         res["patch_applies"] = a.returncode == 0
@@ -46,9 +47,9 @@ def main():
         res["build_no_default_features"] = run(["cargo", "build", "--offline", "--no-default-features"], wt, tenv)
         res["build_unsize_arcswap"] = run(["cargo", "build", "--offline", "--features", "unsize,arc-swap"], wt, tenv)
         shutil.copy(os.path.join(d, "demo.rs"), demo)
-        res["demo_patched_native"] = run(["cargo", "test", "--offline", "--test", "seeded_demo"], wt, tenv)
+        res["demo_patched_native"] = run(["cargo", "test", "--offline", "--test", "seeded_demo"] + nodef, wt, tenv)
         if miri:
-            res["demo_patched_miri"] = run(["cargo", "+nightly", "miri", "test", "--offline", "--test", "seeded_demo"], wt, menv)
+            res["demo_patched_miri"] = run(["cargo", "+nightly", "miri", "test", "--offline", "--test", "seeded_demo"] + nodef, wt, menv)
     finally:
         subprocess.run(["git", "-C", "/repo", "worktree", "remove", "--force", wt], stdout=subprocess.DEVNULL, stderr=subprocess.DEVNULL)
         shutil.rmtree(wt, ignore_errors=True)
